@@ -447,20 +447,22 @@ Definition the_port (W : wsdl) (o : options) (s : service) (sub : option key) : 
   end.
 
 (* ... then the operation, named by attribute or by string subscript *)
-Definition port_level (W : wsdl) (o : options) (s : service) (sub : option key)
-                      (rest : list step) : sout :=
-  match the_port W o s sub with
-  | inl r => r
-  | inr p =>
-      match sub, rest with
-      | None, _ => SFail     (* not used: attribute access goes through op_level *)
-      | Some _, [] => SNoCall
-      | Some _, Attr n :: rest' => finish rest' (declared W o p n)
-      | Some _, Item (KStr n) :: rest' => finish rest' (declared W o p n)
-      | Some _, Item (KInt _) :: _ => SFail
-      end
+Definition op_level (W : wsdl) (o : options) (p : portdecl) (rest : list step) : sout :=
+  match rest with
+  | [] => SNoCall
+  | Attr n :: rest' => finish rest' (declared W o p n)
+  | Item (KStr n) :: rest' => finish rest' (declared W o p n)
+  | Item (KInt _) :: _ => SFail
   end.
 
+(* a subscript k at port level *)
+Definition port_level (W : wsdl) (o : options) (s : service) (k : key) (rest : list step) : sout :=
+  match the_port W o s (Some k) with
+  | inl r => r
+  | inr p => op_level W o p rest
+  end.
+
+(* attribute access at service or port level names the operation *)
 Definition attr_level (W : wsdl) (o : options) (s : service) (n : name) (rest : list step) : sout :=
   match the_port W o s None with
   | inl r => r
@@ -495,13 +497,13 @@ Definition route (W : wsdl) (o : options) (e : list step) : sout :=
   | Item k :: rest =>
       match w_services W with
       | [] => SFail
-      | [only] => port_level W o only (Some k) rest   (* single service: k selects a port *)
+      | [only] => port_level W o only k rest   (* single service: k selects a port *)
       | _ =>
           match opt_service o with
           | Some _ =>                                    (* default service: k selects a port *)
               match the_service W o with
               | inl r => r
-              | inr s => port_level W o s (Some k) rest
+              | inr s => port_level W o s k rest
               end
           | None =>                                      (* k selects the service *)
               match pick s_name (w_services W) k with
@@ -510,7 +512,7 @@ Definition route (W : wsdl) (o : options) (e : list step) : sout :=
                   match rest with
                   | [] => SNoCall
                   | Attr n :: rest' => attr_level W o s n rest'
-                  | Item k' :: rest' => port_level W o s (Some k') rest'
+                  | Item k' :: rest' => port_level W o s k' rest'
                   end
               end
           end
@@ -611,23 +613,20 @@ Definition outcome_eqb (a b : outcome) : bool :=
   | _, _ => false       (* OWeird never agrees *)
   end.
 
-(* one selection: options, expression, what the implementation did *)
-Definition selection := (options * list step * outcome)%type.
-
-(* a group of selections over one WSDL *)
-Definition sel_case := (wsdl * list selection)%type.
+(* one selection: the WSDL, the client's options, the expression, and what
+   the implementation did *)
+Definition sel_case := (wsdl * options * list step * outcome)%type.
 
 Definition sel_agrees (c : sel_case) : bool :=
-  let '(W, l) := c in
-  forallb (fun s => let '(o, e, x) := s in outcome_eqb (run W o e) x) l.
+  let '(W, o, e, x) := c in outcome_eqb (run W o e) x.
 
 Definition sel_spec_ok (c : sel_case) : bool :=
-  let '(W, l) := c in
-  wf W && forallb (fun s => let '(o, e, x) := s in sat (route W o e) x) l.
+  let '(W, o, e, x) := c in wf W && sat (route W o e) x.
 
 (* a history over several clients: the events, and for every ECall in order
    the options the harness itself had put on that client, the expression
    and what the implementation did *)
+Definition selection := (options * list step * outcome)%type.
 Definition hist_case := (wsdl * list event * list selection)%type.
 
 Definition hist_agrees (c : hist_case) : bool :=
